@@ -406,11 +406,8 @@ theorem deriveLen_noInternal {c : Ctx} {d : AttrDict} (hd : DictOk c d)
   | some col =>
     obtain ⟨v, rfl, hv⟩ := single_of_colOk hs (hd.get hget).2
     obtain ⟨n, rfl, hn⟩ := hv.int_of (by decide)
-    have : ¬ n < 0 := by omega
-    simp only [this, if_false]
-    split
-    · exact NoInternal.pure _
-    · exact NoInternal.kerr _ _
+    simp only
+    ni_auto
 
 theorem deriveAlg_noInternal {c : Ctx} {d : AttrDict} (otype : Nat) (hd : DictOk c d)
     (hs : c.mv "Cryptographic Algorithm" = false) : NoInternal (deriveAlg otype d) := by
@@ -523,6 +520,10 @@ theorem opCreateKeyPair_noInternal {c : Ctx} {e : Engine} {common priv pub : Opt
   refine NoInternal.bind (setAttrs_noInternal h1) (fun po _ => ?_)
   exact NoInternal.bind (setAttrs_noInternal h2) (fun so _ => NoInternal.pure _)
 
+theorem convertCheck_noInternal (ro : RegObj) : NoInternal (convertCheck ro) := by
+  unfold convertCheck
+  ni_auto
+
 theorem opRegister_noInternal {c : Ctx} {e : Engine} {otype : Nat} {tmpl : Option Template} {obj : Option RegObj}
     (ht : TemplateOk? c tmpl) : NoInternal (opRegister c e otype tmpl obj) := by
   unfold opRegister
@@ -531,6 +532,7 @@ theorem opRegister_noInternal {c : Ctx} {e : Engine} {otype : Nat} {tmpl : Optio
   split
   · exact NoInternal.kerr _ _
   refine NoInternal.bind processTemplate?_noInternal (fun d hd => ?_)
+  refine NoInternal.bind (convertCheck_noInternal _) (fun _ _ => ?_)
   exact NoInternal.bind (setAttrs_noInternal (processTemplate?_ok ht hd)) (fun o _ => NoInternal.pure _)
 
 /-! ### DeriveKey -/
